@@ -518,6 +518,12 @@ class TypeMatcherInstance:
                 for r in records:
                     yield r
 
+    def _all_values(self):
+        """Return all values matching the Type query, including those of records in records (in the order of ``_op``)."""
+        yield from self._values()
+        for record in self._subrecords():
+            yield from TypeMatcherInstance(record, self._ftypeparts, self._attrs)._all_values()
+
     def _op(self, op, other):
         for v in self._values():
             if op(v, other):
@@ -667,7 +673,7 @@ class RecordContextMatcher:
                 # Special case for __contains__, where we need to first unwrap all values matching the Type query
                 if comptype in (ast.In, ast.NotIn) and isinstance(left, TypeMatcherInstance):
                     result = False
-                    for v in left._values():
+                    for v in left._all_values():
                         if comp(v, right):
                             result = True
                             break
